@@ -120,6 +120,33 @@ def solo_call(a5mod, seam, call, want_trace=False, cap=3_000_000):
     return {'outcome': outcome, 'steps': counter[0], 'args_kept': post == call['a'], 'trace': trace}
 
 
+def _solo_outcome(a5mod, call):
+    args = [canon.dec(a) for a in call['a']]
+    outcome, _ = apply_call(a5mod, call['f'], args)
+    return outcome
+
+
+def post_quiescence(a5mod, threads):
+    """After the last thread has ended: (a) every distinct call of the run is
+    issued as the *first* call after quiescence, each in its own fork of the
+    quiescent node, so a poisoned entry left for any one of them is seen
+    whatever the others would heal; (b) then all calls once more, sequentially,
+    in this process.  Returns (post_first, post_seq) shaped like `threads`."""
+    from . import forks
+    memo = {}
+    first = []
+    for tc in threads:
+        row = []
+        for call in tc:
+            k = call['f'] + canon.key(call['a'])
+            if k not in memo:
+                memo[k] = forks.fork_call(_solo_outcome, (a5mod, call), 120.0)
+            row.append(memo[k])
+        first.append(row)
+    seq = [[_solo_outcome(a5mod, call) for call in tc] for tc in threads]
+    return first, seq
+
+
 def run_seq_node(a5mod, seam, spec):
     """Single-threaded execution of the run's calls in a given merged order
     (used to ask whether an observation is sequentially explainable)."""
@@ -133,14 +160,8 @@ def run_seq_node(a5mod, seam, spec):
         outcome, _ = apply_call(a5mod, call['f'], args)
         res[t][idx[t]] = [outcome, [canon.enc(a) for a in args] == call['a']]
         idx[t] += 1
-    post = []
-    for tc in spec['threads']:
-        row = []
-        for call in tc:
-            outcome, _ = apply_call(a5mod, call['f'], [canon.dec(a) for a in call['a']])
-            row.append(outcome)
-        post.append(row)
-    return {'results': res, 'post': post}
+    post, post_seq = post_quiescence(a5mod, spec['threads'])
+    return {'results': res, 'post': post, 'post_seq': post_seq}
 
 
 # --------------------------------------------------------------------------
@@ -149,6 +170,7 @@ def run_seq_node(a5mod, seam, spec):
 
 class Plan:
     name = 'plan'
+    wants_hot = False
 
     def start(self, runnable):
         return runnable[0]
@@ -187,6 +209,32 @@ class RandomWalk(Plan):
 
     def describe(self):
         return {'plan': 'rw', 'p': self.p}
+
+
+class RandomWalkHot(Plan):
+    """Random walk that prefers to switch right before / right after lines that
+    touch process-global state (see hot_lines)."""
+    name = 'rwh'
+    wants_hot = True
+
+    def __init__(self, rng, p_hot, p_cold):
+        self.rng, self.p_hot, self.p_cold = rng, p_hot, p_cold
+        self.hot_now = False
+
+    def start(self, runnable):
+        return self.rng.choice(runnable)
+
+    def preempt(self, t, tstep, gstep, runnable):
+        p = self.p_hot if self.hot_now else self.p_cold
+        if p > 0 and len(runnable) > 1 and self.rng.random() < p:
+            return self.rng.choice([x for x in runnable if x != t])
+        return None
+
+    def handoff(self, runnable):
+        return self.rng.choice(runnable)
+
+    def describe(self):
+        return {'plan': 'rwh', 'p_hot': self.p_hot, 'p_cold': self.p_cold}
 
 
 class PCT(Plan):
@@ -357,6 +405,8 @@ def make_plan(spec, rng, nthreads, est_len):
     k = spec['plan']
     if k == 'rw':
         return RandomWalk(rng, spec['p'])
+    if k == 'rwh':
+        return RandomWalkHot(rng, spec['p_hot'], spec['p_cold'])
     if k == 'pct':
         return PCT(rng, nthreads, spec['d'], est_len)
     if k == 'one':
@@ -465,8 +515,10 @@ def unpatch_threading():
 # --------------------------------------------------------------------------
 
 class Sched:
-    def __init__(self, seam, a5mod, thread_calls, plan, budget, log_limit=4000):
+    def __init__(self, seam, a5mod, thread_calls, plan, budget, log_limit=4000, hot=None):
         self.seam = seam
+        self.hot = hot if (hot and plan.wants_hot) else None
+        self.prev_hot = [False] * len(thread_calls)
         self.a5 = a5mod
         self.calls = thread_calls
         self.n = len(thread_calls)
@@ -531,7 +583,7 @@ class Sched:
         if loc is not None:
             self.switch_pairs.add((loc, self.cur_f[target]))
         if len(self.switches) < self.log_limit:
-            self.switches.append([self.steps, t, target, loc])
+            self.switches.append([self.steps, t, target, loc, self.tsteps[t]])
         self.cur = target
         self.locks[target].release()
 
@@ -543,6 +595,10 @@ class Sched:
             self._abort('harness: a5 code ran without the baton')
         if self.steps >= self.budget:
             self._abort('budget')
+        if self.hot is not None:
+            h = (code.co_filename, pos) in self.hot
+            self.plan.hot_now = h or self.prev_hot[t]
+            self.prev_hot[t] = h
         # one consultation per step; a thread that was preempted here executes this
         # step unconditionally when it gets the baton back (guaranteed progress)
         target = self.plan.preempt(t, self.tsteps[t], self.steps, self.runnable())
@@ -633,7 +689,7 @@ class Sched:
         return self
 
 
-def run_threads_node(a5mod, seam, spec):
+def run_threads_node(a5mod, seam, spec, hot=None):
     """Body of a C16 node.  spec: threads (list of call lists), warm (list of
     calls run sequentially first), plan (dict), seed, budget, est_len."""
     rng = random.Random(spec['seed'])
@@ -643,22 +699,15 @@ def run_threads_node(a5mod, seam, spec):
         outcome, _ = apply_call(a5mod, call['f'], args)
         warm_out.append(outcome)
     plan = make_plan(spec['plan'], rng, len(spec['threads']), spec.get('est_len', 1000))
-    s = Sched(seam, a5mod, spec['threads'], plan, spec['budget'])
+    s = Sched(seam, a5mod, spec['threads'], plan, spec['budget'], hot=hot if spec.get('gran', 'line') == 'line' else None)
     s.run()
-    post = None
+    post = post_seq = None
     if s.aborted is None and spec.get('post', True):
-        # post-quiescence: re-issue every call sequentially in the same node
-        post = []
-        for tc in spec['threads']:
-            row = []
-            for call in tc:
-                args = [canon.dec(a) for a in call['a']]
-                outcome, _ = apply_call(a5mod, call['f'], args)
-                row.append(outcome)
-            post.append(row)
+        post, post_seq = post_quiescence(a5mod, spec['threads'])
     return {
         'results': s.results,
         'post': post,
+        'post_seq': post_seq,
         'warm': warm_out,
         'aborted': s.aborted,
         'segments': s.segments,
@@ -865,3 +914,118 @@ def run_history_node(a5mod, seam, spec):
     if spec.get('fingerprint'):
         out['state'] = state_fingerprint()
     return out
+
+
+# --------------------------------------------------------------------------
+# static scan: source lines that touch state which may be shared
+# --------------------------------------------------------------------------
+
+def hot_lines(prefix_dir):
+    """(filename, line) pairs of a5 code that touch process-global state:
+      (a) writes a global, or reads a global that is rebound inside a function
+          or holds a mutable container / object instance;
+      (b) reads or writes an attribute of `self` inside a method of a class
+          that has a long-lived instance (reachable from module globals);
+      (c) stores into a subscript on a line that also loads such a global or
+          such a self attribute.
+    Used only to *bias* where preemptions and interrupts are placed (never to
+    exclude other lines, never as an oracle).  a5 is not called: the code
+    objects are found by walking the imported modules."""
+    import dis
+    import types
+    mods = [m for n, m in list(sys.modules.items()) if m is not None and (n == 'a5' or n.startswith('a5.'))]
+    plain = (types.ModuleType, type, types.FunctionType, types.BuiltinFunctionType, types.MethodType)
+
+    # long-lived instances and their classes
+    singleton_classes = set()
+    seen_obj = set()
+
+    def visit(o, depth):
+        if depth > 3 or id(o) in seen_obj or isinstance(o, plain):
+            return
+        seen_obj.add(id(o))
+        if isinstance(o, (list, tuple, set)):
+            for x in list(o)[:50]:
+                visit(x, depth + 1)
+        elif isinstance(o, dict):
+            for x in list(o.values())[:50]:
+                visit(x, depth + 1)
+        elif hasattr(o, '__dict__'):
+            singleton_classes.add(type(o))
+            for x in list(vars(o).values()):
+                visit(x, depth + 1)
+
+    mutable_globals = set()
+    for m in mods:
+        for g, v in list(vars(m).items()):
+            if g.startswith('__') or isinstance(v, plain) or type(v).__module__ in ('typing', 'types', 'builtins') and not isinstance(v, (list, dict, set, bytearray, tuple)):
+                continue
+            if isinstance(v, (list, dict, set, bytearray)) or hasattr(v, '__dict__'):
+                mutable_globals.add(g)
+            visit(v, 0)
+
+    codes = {}          # code -> is method of a singleton class
+
+    def add_code(co, single):
+        if not co.co_filename.startswith(prefix_dir):
+            return
+        if co in codes:
+            codes[co] = codes[co] or single
+            return
+        codes[co] = single
+        for c in co.co_consts:
+            if isinstance(c, types.CodeType):
+                add_code(c, single)
+
+    for m in mods:
+        for g, v in list(vars(m).items()):
+            if isinstance(v, types.FunctionType):
+                add_code(v.__code__, False)
+            elif isinstance(v, type):
+                single = any(v in c.__mro__ for c in singleton_classes)
+                for a in list(vars(v).values()):
+                    f = getattr(a, '__func__', a)
+                    if isinstance(f, types.FunctionType):
+                        add_code(f.__code__, single)
+                    elif isinstance(a, property):
+                        for pf in (a.fget, a.fset, a.fdel):
+                            if isinstance(pf, types.FunctionType):
+                                add_code(pf.__code__, single)
+    stored_globals = set()
+    ins = {}
+    for co in codes:
+        lst = list(dis.get_instructions(co))
+        ins[co] = lst
+        for i in lst:
+            if i.opname in ('STORE_GLOBAL', 'DELETE_GLOBAL'):
+                stored_globals.add(i.argval)
+    hot = set()
+    for co, lst in ins.items():
+        single = codes[co]
+        by_line = {}
+        line = co.co_firstlineno
+        for i in lst:
+            if i.starts_line is not None:
+                line = i.starts_line
+            by_line.setdefault(line, []).append(i)
+        for line, li in by_line.items():
+            shared_load = False
+            is_hot = False
+            prev = None
+            for i in li:
+                op = i.opname
+                if op in ('STORE_GLOBAL', 'DELETE_GLOBAL'):
+                    is_hot = True
+                elif op in ('LOAD_GLOBAL', 'LOAD_NAME') and (i.argval in stored_globals or i.argval in mutable_globals):
+                    is_hot = True
+                    shared_load = True
+                elif single and op in ('LOAD_ATTR', 'LOAD_METHOD', 'STORE_ATTR', 'DELETE_ATTR') and prev is not None \
+                        and prev.opname in ('LOAD_FAST', 'LOAD_FAST_CHECK') and prev.argval == 'self':
+                    is_hot = True
+                    shared_load = True
+                prev = i
+            if not is_hot and shared_load:
+                is_hot = True
+            if is_hot:
+                hot.add((co.co_filename, line))
+    return hot
